@@ -1,9 +1,9 @@
 SPECIFICATION Spec
 CONSTANTS
-  Fams <- QuickFams
+  Fams <- MutantFams
   D_SwapDelete = TRUE
-  M_AllDocumentKindsFiltered = TRUE
   Cap = 2
   M_DepthBuffersDisjoint = TRUE
-INVARIANTS AllInv
+  M_AllDocumentKindsFiltered = FALSE
+INVARIANTS MutantKindInv
 CHECK_DEADLOCK FALSE
